@@ -1,10 +1,11 @@
 ------------------------------ MODULE ParExecMC ------------------------------
 EXTENDS ParExec
-C23 == <<2, 3>>
-C03 == <<0, 3>>
-C41 == <<4, 1>>
+CfgT2 == {[t |-> 2, counts |-> <<2, 3>>], [t |-> 2, counts |-> <<0, 1>>], [t |-> 2, counts |-> <<4>>]}
+CfgT3 == {[t |-> 3, counts |-> <<4, 1>>], [t |-> 3, counts |-> <<2, 3>>]}
+CfgT4 == {[t |-> 4, counts |-> <<5>>]}
 NoDev == {}
 Dev_NotifyOne == {"NotifyOneAtPublish"}
 Dev_NoLock == {"NoLockInIncr"}
 Dev_Stride == {"StrideOne"}
+Dev_PlainFinished == {"PlainFinished"}
 =============================================================================
